@@ -99,12 +99,12 @@ func graphsOf(qs []hx.Q) string {
 // c07Subset: N-Triples documents through all four text decoders, Turtle documents through Turtle and TriG.
 func c07Subset(r *hx.Rand, n int, out *hx.Out, _ []string) {
 	var ntSeeds, ttlSeeds []seedFile
-	for _, s := range seeds(".nt") {
+	for _, s := range seeds("nt") {
 		if !strings.Contains(s.path, "bad") && len(s.data) < 20000 {
 			ntSeeds = append(ntSeeds, s)
 		}
 	}
-	for _, s := range seeds(".ttl") {
+	for _, s := range seeds("ttl") {
 		if !strings.Contains(s.path, "bad") && !strings.Contains(s.path, "error") && !strings.Contains(s.path, "manifest") && len(s.data) < 20000 {
 			ttlSeeds = append(ttlSeeds, s)
 		}
